@@ -146,7 +146,7 @@ WRAP_ALPHABET = ["A", ":", " ", "\n", "#", ";"]
 
 def docs(tier, rng):
     """list of (tag, text)"""
-    n = {"quick": 300, "search": 1200, "thorough": 5000}[tier]
+    n = {"quick": 800, "search": 2000, "thorough": 15000}[tier]
     out = [("x", t) for t in EXOTIC]
     for s in gen.corpus_files("wrap"): out.append(("c", s))
     for s in gen.repo_deb822_corpus():
@@ -165,7 +165,7 @@ def docs(tier, rng):
 
 def wrap_cases(tier, rng, stream):
     """doc-wrap / para-wrap cases: documents x sampled settings (thorough: the whole grid on a part)"""
-    per = {"quick": 12, "search": 20, "thorough": 40}[tier]
+    per = {"quick": 14, "search": 20, "thorough": 40}[tier]
     cases = []; seen = set()
     def add(tag, t, cfg):
         key = (t, cfg)
@@ -209,7 +209,7 @@ def fmt_tables(cases):
     return tabs
 
 def control_cases(tier, rng):
-    n = {"quick": 400, "search": 1200, "thorough": 6000}[tier]
+    n = {"quick": 1000, "search": 2500, "thorough": 15000}[tier]
     per = {"quick": 4, "search": 6, "thorough": 8}[tier]
     cases = []; seen = set()
     def add(t, cfg):
